@@ -18,7 +18,7 @@ RULE = (
     'recession_interval(_zeta) and on the views average_recession_time / average_rising_depth (recomputed as '
     'mean(offset + crossing) from the base tables); a third of the datasets continue as a multi-step session (grid step '
     'changed, rise / recession run again): whether the repeated commands are refused or accepted, the tables must '
-    'still satisfy the walker.  Change of units: the same record with rain in units of 2^-30 mm or 2^12 mm (storm '
+    'still satisfy the walker; another third is taken apart and assembled again with a reference level drawn from the levels of the curve.  Change of units: the same record with rain in units of 2^-30 mm or 2^12 mm (storm '
     'threshold with it) and with levels in units of 2^-4 mm or 2^6 mm (jump threshold and grid step with it) -- '
     'multiplication by a power of two is exact, so the tables must hold the same intervals and levels with the base values in the other unit (1e-9 of the largest value plus the absolute tolerance of the root finder that locates crossings, 2e-12 on the abscissa), and the stationarity condition must hold in the unit of the record itself (residual sums within 1e-9 of the sum of magnitudes, no absolute floor).  Non-trivial: >= 3 intervals and >= 1 level crossed by >= 3 of '
     'them; distinct by overlap-graph signature / dataset digest.'
@@ -42,6 +42,7 @@ REQUIRED = {
         'rise:least-squares-optimality-checked': 20,
         'recession:view-levels-checked': 100,
         'sessions-with-repeated-steps': 5,
+        'curves-reassembled-with-a-reference-level': 10,
         'get_series_time_offsets-calls-with-debug-messages-on': 10,
         'curves-assembled-with-debug-messages-on': 5,
         'units:rise-tables-compared-in-other-units': 8,
@@ -364,7 +365,8 @@ def run(ctx):
     ncli = ctx.share(s['cli'])
     for i in range(n):
         case = curves_corpus.make_case(rng, i)
-        curves_corpus.run_dataset(ctx, PROPERTY, case, 'cli' if i < ncli else 'function', i, nontrivial=nontrivial, session=(i % 3 == 0))
+        curves_corpus.run_dataset(ctx, PROPERTY, case, 'cli' if i < ncli else 'function', i, nontrivial=nontrivial, session=(i % 3 == 0),
+                                  with_reference=(i % 3 == 1))
     rng = ctx.rng('units')
     for i in range(ctx.share(s['units'])):
         check_units(ctx, rng, curves_corpus.make_case(rng, i), i)
